@@ -112,4 +112,79 @@ Section Transfer.
     - unfold rpts. rewrite x_increasing_IZR. exact Hx.
     - unfold rpts. rewrite map_length. exact Hn.
   Qed.
+
+  (* ---- graham_scan: the predicates of the general-position clause *)
+  Lemma eqb_IZR a b : Reqb (IZR a) (IZR b) = Z.eqb a b.
+  Proof.
+    destruct (Z.eqb_spec a b) as [->|H]; [apply Reqb_true; reflexivity|].
+    apply Reqb_false. intros E. apply eq_IZR in E. contradiction.
+  Qed.
+  Lemma ltb_IZR a b : Rltb (IZR a) (IZR b) = Z.ltb a b.
+  Proof.
+    destruct (Z.ltb_spec a b) as [H|H]; [apply Rltb_true; apply IZR_lt; exact H|apply Rltb_false; apply IZR_le; exact H].
+  Qed.
+  Lemma existsb_ext' {A} (f g : A -> bool) l : (forall a, f a = g a) -> existsb f l = existsb g l.
+  Proof. intros H. induction l as [|a l IH]; cbn [existsb]; auto. rewrite H, IH. reflexivity. Qed.
+
+  Lemma nth_rpts i : nth i rpts (@pt0 RNum) = IZRp (nth i zpts (@pt0 ZNum)).
+  Proof. unfold rpts. change (@pt0 RNum) with (IZRp (@pt0 ZNum)). apply map_nth. Qed.
+  Lemma len_rpts : @length (@pt RNum) rpts = @length (@pt ZNum) zpts.
+  Proof. unfold rpts. apply map_length. Qed.
+  Lemma dotk_IZR k a b : @dotk RNum rpts k a b = IZR (@dotk ZNum zpts k a b).
+  Proof.
+    unfold dotk. rewrite !nth_rpts. unfold IZRp. cbn [fst snd T add sub mul RNum ZNum].
+    rewrite plus_IZR, !mult_IZR, !minus_IZR. reflexivity.
+  Qed.
+  Lemma boundaryb_IZR k : @boundaryb RNum rpts k = @boundaryb ZNum zpts k.
+  Proof.
+    unfold boundaryb. rewrite len_rpts.
+    apply existsb_ext'. intros j. f_equal. f_equal; apply forallb_ext'; intros i; rewrite ccw_idx_IZR.
+    - apply nonneg_IZR. - apply nonpos_IZR.
+  Qed.
+  Lemma betweenb_IZR k : @betweenb RNum rpts k = @betweenb ZNum zpts k.
+  Proof.
+    unfold betweenb. rewrite len_rpts.
+    apply existsb_ext'. intros a. apply existsb_ext'. intros b. f_equal; [f_equal|].
+    - rewrite ccw_idx_IZR. cbn [eqb zero RNum ZNum]. apply (eqb_IZR _ 0).
+    - rewrite dotk_IZR. apply negt_IZR.
+  Qed.
+  Lemma extremeb_IZR k : @extremeb RNum rpts k = @extremeb ZNum zpts k.
+  Proof. unfold extremeb. rewrite boundaryb_IZR, betweenb_IZR. reflexivity. Qed.
+  Lemma lex_lt_IZR p q : @lex_lt RNum (IZRp p) (IZRp q) = @lex_lt ZNum p q.
+  Proof. unfold lex_lt, IZRp. cbn [fst snd eqb ltb RNum ZNum]. rewrite !eqb_IZR, !ltb_IZR. reflexivity. Qed.
+  Lemma pivot_go_IZR : forall (l : list (Z * Z)) i best bi,
+    @pivot_go RNum (map IZRp l) i (IZRp best) bi = @pivot_go ZNum l i best bi.
+  Proof.
+    induction l as [|p l IH]; intros i best bi; [reflexivity|].
+    cbn [map pivot_go]. rewrite lex_lt_IZR. destruct (@lex_lt ZNum p best); apply IH.
+  Qed.
+  Lemma pivot_min_IZR : @pivot_min RNum rpts = @pivot_min ZNum zpts.
+  Proof. unfold pivot_min, rpts. destruct zpts as [|p l]; [reflexivity|]. cbn [map]. apply pivot_go_IZR. Qed.
+
+  Theorem graham_gpb_exact out : @graham_gpb ZNum zpts out = @graham_gpb RNum rpts out.
+  Proof.
+    unfold graham_gpb. rewrite len_rpts. rewrite pivot_min_IZR.
+    f_equal; [f_equal|].
+    - f_equal. apply filter_ext'. intros k. symmetry. apply extremeb_IZR.
+    - apply tripb_ext. intros a b c. rewrite ccw_idx_IZR. symmetry. apply negt_IZR.
+  Qed.
+  Theorem general_positionb_exact : @general_positionb ZNum zpts = @general_positionb RNum rpts.
+  Proof.
+    unfold general_positionb. rewrite len_rpts.
+    apply forallb_ext'. intros i. apply forallb_ext'. intros j. apply forallb_ext'. intros k.
+    rewrite ccw_idx_IZR. cbn [eqb zero RNum ZNum]. f_equal. symmetry. apply (eqb_IZR _ 0).
+  Qed.
+  Lemma find_row_IZR p : forall (l : list (Z * Z)) j, @find_row RNum (IZRp p) (map IZRp l) j = @find_row ZNum p l j.
+  Proof.
+    induction l as [|q l IH]; intros j; [reflexivity|].
+    cbn [map find_row].
+    assert (E : @pt_eqb RNum (IZRp q) (IZRp p) = @pt_eqb ZNum q p).
+    { unfold pt_eqb, IZRp. cbn [fst snd eqb RNum ZNum]. rewrite !eqb_IZR. reflexivity. }
+    rewrite E. destruct (@pt_eqb ZNum q p); [reflexivity|apply IH].
+  Qed.
+  Theorem distinctb_exact : @distinctb ZNum zpts = @distinctb RNum rpts.
+  Proof.
+    unfold distinctb. rewrite len_rpts. apply forallb_ext'. intros i.
+    unfold first_eq. rewrite nth_rpts. unfold rpts. rewrite find_row_IZR. reflexivity.
+  Qed.
 End Transfer.
